@@ -768,7 +768,8 @@ static __attribute__((noinline)) void once_string(void)
     ONCE(4, "string.insert_ch", cstl_string_insert_ch(A(&s[0]), A(5), A(1), A(' ')));
     ONCE(3, "string.insert_str", cstl_string_insert_str(A(&s[0]), A(0), A(">")));
     ONCE(4, "string.insert_str_n", cstl_string_insert_str_n(A(&s[0]), A(1), A("> x"), A(2)));
-    ONCE(3, "string.insert", cstl_string_insert(A(&s[1]), A(0), A(&s[1])));
+    { cstl_string_t t; cstl_string_init(&t); cstl_string_set_str(&t, "world!!");
+      ONCE(3, "string.insert", cstl_string_insert(A(&s[1]), A(0), A(&t))); cstl_string_clear(&t); }
     CK(strcmp(cstl_string_str(&s[0]), ">> hello world!!") == 0 && strcmp(cstl_string_str(&s[1]), "world!!world!!") == 0, "once.string.insert.result", "content '%s' / '%s'", cstl_string_str(&s[0]), cstl_string_str(&s[1]));
     /* the classic walk: at(&s, i++) */
     p = cstl_string_str(&s[0]);
@@ -1308,15 +1309,149 @@ static __attribute__((noinline)) void names_memory(void)
     CK(cleared == 2 && vrt_lib_live() == 0, "names.memory.reset", "%d clear callbacks for one shared and one unique allocation", cleared);
     VRT_COUNT("reread.named-variable-calls");
 }
-static void extra_trees(void) { macro_trees(); names_trees(); }
-static void extra_heap(void) { macro_heap(); names_heap(); }
-static void extra_hash(void) { macro_hash(); conv_hash(); names_hash(); }
+
+/* ---- declared objects as elements, the same object in two roles, caller buffers at odd addresses ----
+ * (a) Elements that are DECLARED objects (not heap blocks): a function attribute that promises "the result aliases nothing"
+ *     (malloc, returns_nonnull ...) lets the client's compiler fold `pop_front(&l) == &obj` or reorder accesses through the
+ *     returned pointer and through the object's own name.
+ * (b) One string object as both operands (find(s, s, pos), compare(s, s)), with an embedded NUL.
+ * (c) An external array buffer at an odd address (records behind a one-byte header). */
+static __attribute__((noinline)) void declared_lists(int dl)
+{
+    struct el a, b, c;
+    struct cstl_dlist d;
+    struct cstl_slist s;
+    void *r;
+    memset(&a, 0x41, sizeof(a)); memset(&b, 0x42, sizeof(b)); memset(&c, 0x43, sizeof(c));
+    a.key = 0; b.key = 1; c.key = 2; keytab[0] = 10; keytab[1] = 20; keytab[2] = 30;
+    VRT_OP0("list.pop_front", "elements are declared (automatic) objects; results compared with their addresses, accessed under both names");
+    if (dl) {
+        cstl_dlist_init(&d, offsetof(struct el, dn));
+        cstl_dlist_push_back(&d, &a); cstl_dlist_push_back(&d, &b); cstl_dlist_push_back(&d, &c);
+        a.pad0 = 111;
+        r = cstl_dlist_pop_front(&d);
+        CK(r == &a, "declared.dlist.pop_front", "pop_front did not return the address of the declared first element");
+        ((struct el *)r)->pad0 = 222;
+        CK(a.pad0 == 222, "declared.dlist.alias", "a store through the pointer returned by pop_front is not seen under the object's own name");
+        r = cstl_dlist_pop_back(&d);
+        CK(r == &c && cstl_dlist_front(&d) == &b && cstl_dlist_back(&d) == &b, "declared.dlist.pop_back", "pop_back/front/back with declared elements");
+        b.pad0 = 5; ((struct el *)cstl_dlist_front(&d))->pad0 = 6;
+        CK(b.pad0 == 6 && cstl_dlist_pop_front(&d) == &b && cstl_dlist_pop_front(&d) == NULL, "declared.dlist.alias", "front() alias / last pops");
+    } else {
+        cstl_slist_init(&s, offsetof(struct el, sn));
+        cstl_slist_push_back(&s, &a); cstl_slist_push_back(&s, &b); cstl_slist_push_back(&s, &c);
+        a.pad0 = 111;
+        r = cstl_slist_pop_front(&s);
+        CK(r == &a, "declared.slist.pop_front", "pop_front did not return the address of the declared first element");
+        ((struct el *)r)->pad0 = 222;
+        CK(a.pad0 == 222, "declared.slist.alias", "a store through the pointer returned by pop_front is not seen under the object's own name");
+        r = cstl_slist_erase_after(&s, &b);
+        CK(r == &c && cstl_slist_front(&s) == &b && cstl_slist_back(&s) == &b, "declared.slist.erase_after", "erase_after/front/back with declared elements");
+        c.pad0 = 7; ((struct el *)r)->pad0 = 8;
+        CK(c.pad0 == 8 && cstl_slist_pop_front(&s) == &b && cstl_slist_pop_front(&s) == NULL, "declared.slist.alias", "erase_after alias / last pops");
+    }
+    VRT_COUNT("reread.declared-object-calls");
+}
+static __attribute__((noinline)) void declared_trees_heap(int heap)
+{
+    struct el a, b;
+    const void *r;
+    memset(&a, 0x41, sizeof(a)); memset(&b, 0x42, sizeof(b));
+    a.key = 0; b.key = 1; keytab[0] = 10; keytab[1] = 20;
+    VRT_OP0("tree.erase", "elements are declared (automatic) objects");
+    if (heap) {
+        struct cstl_heap h;
+        cstl_heap_init(&h, cmp_el, NULL, offsetof(struct el, hn));
+        cstl_heap_push(&h, &a); cstl_heap_push(&h, &b);
+        b.pad0 = 1;
+        r = cstl_heap_get(&h);
+        CK(r == &b, "declared.heap.get", "get did not return the address of the declared maximum");
+        r = cstl_heap_pop(&h);
+        CK(r == &b, "declared.heap.pop", "pop did not return the address of the declared maximum");
+        ((struct el *)r)->pad0 = 2;
+        CK(b.pad0 == 2 && cstl_heap_pop(&h) == &a && cstl_heap_pop(&h) == NULL, "declared.heap.alias", "store through the popped pointer / last pops");
+    } else {
+        struct cstl_bintree bt;
+        struct cstl_rbtree rt;
+        cstl_bintree_init(&bt, cmp_el, NULL, offsetof(struct el, bn)); cstl_rbtree_init(&rt, cmp_el, NULL, offsetof(struct el, rn));
+        cstl_bintree_insert(&bt, &a, NULL); cstl_bintree_insert(&bt, &b, NULL); cstl_rbtree_insert(&rt, &a, NULL); cstl_rbtree_insert(&rt, &b, NULL);
+        CK(cstl_bintree_find(&bt, &b, NULL) == &b && cstl_rbtree_find(&rt, &a, NULL) == &a, "declared.trees.find", "find did not return the address of the declared element");
+        a.pad0 = 1;
+        r = cstl_bintree_erase(&bt, &a);
+        CK(r == &a, "declared.trees.erase", "erase did not return the address of the declared element");
+        ((struct el *)r)->pad0 = 2;
+        CK(a.pad0 == 2 && cstl_rbtree_erase(&rt, &b) == &b && cstl_bintree_erase(&bt, &b) == &b && cstl_rbtree_erase(&rt, &a) == &a, "declared.trees.alias", "store through the erased pointer / remaining erases");
+    }
+    VRT_COUNT("reread.declared-object-calls");
+}
+static __attribute__((noinline)) void declared_hash(void)
+{
+    struct el a, b;
+    struct cstl_hash h;
+    void *r;
+    memset(&a, 0x41, sizeof(a)); memset(&b, 0x42, sizeof(b));
+    cstl_hash_init(&h, offsetof(struct el, xn)); cstl_hash_resize(&h, 4, NULL);
+    VRT_OP0("hash.find", "elements are declared (automatic) objects");
+    cstl_hash_insert(&h, 5, &a); cstl_hash_insert(&h, 6, &b);
+    a.pad0 = 1;
+    r = cstl_hash_find(&h, 5, NULL, NULL);
+    CK(r == &a, "declared.hash.find", "find did not return the address of the declared element");
+    ((struct el *)r)->pad0 = 2;
+    CK(a.pad0 == 2 && cstl_hash_find(&h, 6, NULL, NULL) == &b, "declared.hash.alias", "store through the found pointer");
+    cstl_hash_clear(&h, NULL);
+    VRT_COUNT("reread.declared-object-calls");
+}
+static __attribute__((noinline)) void same_object_string(void)
+{
+    cstl_string_t s;
+    cstl_wstring_t w;
+    static const char raw[5] = { 'a', 'b', 0, 'a', 'b' };
+    static const wchar_t wraw[3] = { 0, L'x', L'y' };
+    cstl_string_init(&s); cstl_wstring_init(&w);
+    VRT_OP0("string.find", "the same string object as haystack and needle, with an embedded NUL");
+    cstl_string_insert_str_n(&s, 0, raw, 5); cstl_wstring_insert_str_n(&w, 0, wraw, 3);
+    CK(cstl_string_size(&s) == 5 && cstl_wstring_size(&w) == 3, "same.string.setup", "sizes");
+    /* the needle of find(hay, ndl, pos) is str(ndl): it ends at the first NUL, exactly as for strstr / wcsstr */
+    /* (pos 1 is left out: whether the haystack, too, ends at its first NUL is the C library's view, the whole buffer the other) */
+    CK(cstl_string_find(&s, &s, 0) == 0 && cstl_string_find(&s, &s, 3) == 3 && cstl_string_find(&s, &s, 4) == -1,
+       "same.string.find", "find(s, s, pos) on \"ab\\0ab\" does not agree with strstr on the same characters");
+    CK(cstl_wstring_find(&w, &w, 0) == 0 && cstl_wstring_find(&w, &w, 1) == 1 && cstl_wstring_find(&w, &w, 2) == 2,
+       "same.wstring.find", "find(w, w, pos) on L\"\\0xy\" (empty needle) does not agree with wcsstr");
+    CK(cstl_string_compare(&s, &s) == 0 && cstl_wstring_compare(&w, &w) == 0, "same.string.compare", "compare(s, s) is not 0");
+    /* (append(s, s) / insert(s, pos, s) are NOT driven: "append one string object to ANOTHER"; with the source inside the buffer
+     * that is being re-allocated today's library reads the old buffer -- an aliasing the documentation does not promise) */
+    cstl_string_clear(&s); cstl_wstring_clear(&w);
+    VRT_COUNT("reread.same-object-calls");
+}
+static __attribute__((noinline)) void odd_buffer_array(void)
+{
+    cstl_array_t a, v;
+    unsigned char *blk = vrt_alloc(1 + 5 * 3 + 1);
+    void *buf = NULL;
+    size_t i;
+    for (i = 0; i < 17; i++) blk[i] = (unsigned char)(i + 1);
+    cstl_array_init(&a); cstl_array_init(&v);
+    VRT_OP0("array.set", "an external buffer of five 3-byte records at an ODD address");
+    cstl_array_set(&a, blk + 1, 5, 3);
+    CK(cstl_array_size(&a) == 5 && cstl_array_data(&a) == blk + 1 && cstl_array_at(&a, 0) == blk + 1 && cstl_array_at(&a, 4) == blk + 13
+       && *(unsigned char *)cstl_array_at(&a, 2) == 8, "odd.array.at", "at()/data() of a view over a buffer at an odd address");
+    cstl_array_slice(&a, 1, 4, &v);
+    CK(cstl_array_size(&v) == 3 && cstl_array_at(&v, 0) == blk + 4 && cstl_array_at_const(&v, 2) == blk + 10, "odd.array.slice", "slice over a buffer at an odd address");
+    cstl_array_reset(&v);
+    cstl_array_release(&a, &buf);
+    CK(buf == blk + 1 && cstl_array_size(&a) == 0 && vrt_lib_live() == 0, "odd.array.release", "release handed back %p, the buffer supplied was %p", buf, (void *)(blk + 1));
+    vrt_free(blk);
+    VRT_COUNT("reread.odd-address-buffers");
+}
+static void extra_trees(void) { macro_trees(); names_trees(); declared_trees_heap(0); }
+static void extra_heap(void) { macro_heap(); names_heap(); declared_trees_heap(1); }
+static void extra_hash(void) { macro_hash(); conv_hash(); names_hash(); declared_hash(); }
 static void extra_map(void) { names_map(); }
 static void extra_vector(void) { conv_vector(); names_vector(); }
-static void extra_string(void) { conv_string(); names_string(); }
-static void extra_dlist(void) { macro_dlist(); names_lists(1); }
-static void extra_slist(void) { macro_slist(); names_lists(0); }
-static void extra_array(void) { names_array(); }
+static void extra_string(void) { conv_string(); names_string(); same_object_string(); }
+static void extra_dlist(void) { macro_dlist(); names_lists(1); declared_lists(1); }
+static void extra_slist(void) { macro_slist(); names_lists(0); declared_lists(0); }
+static void extra_array(void) { names_array(); odd_buffer_array(); }
 static void extra_memory(void) { names_memory(); }
 
 static const struct { const char *name; void (*f)(void); void (*once)(void); void (*extra)(void); } fam[] = {
